@@ -288,6 +288,11 @@ def program_st():
         locs_used = [o[1] for o in prog if has_symbolic(o[1])]
         if seed % 3 == 0 and len(locs_used) >= 2:
             case["fork"] = random.Random(seed).sample(locs_used, 2)
+        if seed % 4 == 1 and len(prog) >= 2:
+            # a sub-call that forks on its calldata and fails on every side, placed between two ops:
+            # the caller resumes on each of the failing paths with its storage as it was before the
+            # call, and what one of those paths stores afterwards is that path's alone
+            case["failcall"] = 1 + seed % (len(prog) - 1)
         return case
 
     op = st.tuples(st.sampled_from(["store", "store", "load"]), st.integers(0, 7), st.integers(0, 2), val_st())
@@ -297,12 +302,20 @@ def program_st():
     return st.builds(mk, pool, st.lists(op, min_size=2, max_size=7), st.booleans(), st.sampled_from(["solidity", "solidity", "generic"]), st.integers(0, 1 << 30))
 
 
+FAILER = 0xFA11
+# writes its own storage and then fails, on either side of a branch on its first calldata word
+FAILER_CODE = gen.compile_body([["if", ["op2", "EQ", ["cd", 0], ["c", 1]], [["sstore", ["c", 0], ["c", 5]], ["revert", 0, 0]], [["tstore", ["c", 0], ["c", 6]], ["invalid"]]]])
+
+
 def compile_case(case):
     body = []
     out = 0x200
     n = 0
     S, L = ("tstore", "tload") if case["transient"] else ("sstore", "sload")
-    for kind, loc, val in case["ops"]:
+    for i, (kind, loc, val) in enumerate(case["ops"]):
+        if case.get("failcall") == i:
+            body.append(["mstore", 0x1A0, ["cd", 0]])
+            body.append(["call", "CALL", ["c", FAILER], ["c", 0], 0x1A0, 32, 0, 0, 0x1C0])
         if kind == "store":
             body.append([S, loc, val])
         else:
@@ -331,8 +344,11 @@ def args(layout):
 
 
 def build_world(case):
+    accounts = [{"addr": MAIN, "code": compile_case(case).hex(), "balance": 0}]
+    if case.get("failcall"):
+        accounts.append({"addr": FAILER, "code": FAILER_CODE.hex(), "balance": 0})
     return {
-        "accounts": [{"addr": MAIN, "code": compile_case(case).hex(), "balance": 0}],
+        "accounts": accounts,
         "target": MAIN, "cdlen": 32 * gen.NW, "cdwords": case.get("seed", 0) % 2 == 0,
         "caller": "sym", "origin": 1, "value": 0,
     }
@@ -372,7 +388,7 @@ def run_case(case, acc=None):
         symb = any(has_symbolic(o[1]) for o in case["ops"])
         spellings = len({repr(o[1]) for o in case["ops"]}) > len({repr(concrete_value(o[1])) for o in case["ops"] if concrete_value(o[1]) is not None}) and any(concrete_value(o[1]) is not None for o in case["ops"])
         nt = r["stats"]["covered"] > 0 and nstores >= 2 and (symb or spellings)
-        acc.case(case, nt, klass=[case["layout"], "transient" if case["transient"] else "persistent", "symbolic-keys" if symb else "concrete-keys"] + (["two-spellings"] if spellings else []) + (["stuck"] if r["stats"]["stuck_paths"] else []),
+        acc.case(case, nt, klass=[case["layout"], "transient" if case["transient"] else "persistent", "symbolic-keys" if symb else "concrete-keys"] + (["two-spellings"] if spellings else []) + (["stuck"] if r["stats"]["stuck_paths"] else []) + (["failcall"] if case.get("failcall") else []),
                  sample={"ops": case["ops"], "layout": case["layout"], "stats": r["stats"]})
         for k in ("inputs", "covered", "uncovered", "guided", "stuck_paths"):
             acc.extra["n_" + k] = acc.extra.get("n_" + k, 0) + r["stats"].get(k, 0)
